@@ -63,7 +63,7 @@ def on_error_resume_next_(
             subscription.disposable = d
 
             def on_resume(state: Exception | None = None) -> None:
-                scheduler.schedule(action, state)
+                cancelable.disposable = scheduler.schedule(action, state)
 
             d.disposable = current.subscribe(
                 observer.on_next, on_resume, on_resume, scheduler=scheduler
